@@ -11,6 +11,7 @@ package sigmar
 import (
 	"bytes"
 	"encoding/json"
+	"errors"
 	"fmt"
 	"os"
 	"runtime"
@@ -49,6 +50,7 @@ type Step struct {
 	Choice   int        `json:"choice"`
 	Wrap     string     `json:"wrap"`
 	Fals     Fals       `json:"fals"`
+	Fault    int        `json:"fault"`
 	Items    []string   `json:"items"`
 	NPriRand int        `json:"nprirand"`
 	Truth    []bool     `json:"truth"`
@@ -269,6 +271,14 @@ func (l layout) nV() int {
 	return n
 }
 
+// inCut: byte position of a cut inside item i: 1 byte kept (b = 1) / all but one byte kept (b = 2)
+func inCut(l layout, i, b int) int {
+	if b == 1 {
+		return 1
+	}
+	return l.size(i) - 1
+}
+
 // alter changes the value encoded at b to a different one; false if no certified difference
 func alter(s *suites.S, point bool, b []byte) bool {
 	var nb []byte
@@ -402,6 +412,9 @@ func (r *replayer) caseKey() string {
 	if len(st) == 3 && st[1].M.K != "none" {
 		c = "mut-" + st[1].M.K
 	}
+	if st[0].Fault != 0 {
+		c = "fault-" + c
+	}
 	return c
 }
 
@@ -509,6 +522,32 @@ func (r *replayer) run() error {
 		}
 	case "trunc":
 		p2 = p2[:lay.offset(mu.A)]
+	case "truncIn":
+		p2 = p2[:lay.offset(mu.A-1)+inCut(lay, mu.A-1, mu.B)]
+	case "truncZeroTail":
+		// an honest proof whose trailing bytes are 0x00 (fresh prover randomness until the last response encodes so),
+		// cut by exactly those bytes
+		tries := 300
+		if s.Name == "ed25519" {
+			tries = 60 // little-endian, top byte < 16: one proof in 16 ends in 0x00
+		} else if len(lay.kinds) > 4 {
+			tries = 0 // big-endian: one in 256; only affordable for the smallest proofs
+		}
+		found := false
+		for t := 0; t < tries && !found; t++ {
+			q, e := proof.HashProve(s, protoName, pred.Prover(s, m.px, m.pts, choice))
+			if e == nil && len(q) == lay.total() && q[len(q)-1] == 0 {
+				z := 0
+				for z < lay.size(len(lay.kinds)-1)-1 && q[len(q)-1-z] == 0 {
+					z++
+				}
+				p2, found = append([]byte(nil), q[:len(q)-z]...), true
+			}
+		}
+		if !found {
+			r.res.Skip("unwitnessed-mutation")
+			return nil
+		}
 	}
 	vpred, _ := build(vtree, pv.Wrap)
 	verifier := vpred.Verifier(s, vpts)
@@ -526,7 +565,8 @@ func (r *replayer) run() error {
 	r.judge("hash", must, verr, nil)
 
 	// ---- interactive deniable prover with the clique protocol (2 or 3 participants)
-	if r.cfg.Deniable > 0 && mu.K != "name" && mu.K != "simAll" && mu.K != "replayCh" && core.Hash64(fmt.Sprint(r.cfg.Seed), "den", r.bh.raw)%uint64(r.cfg.Deniable) == 0 {
+	if r.cfg.Deniable > 0 && mu.K != "name" && mu.K != "simAll" && mu.K != "replayCh" && mu.K != "truncZeroTail" &&
+		(pv.Fault != 0 || core.Hash64(fmt.Sprint(r.cfg.Seed), "den", r.bh.raw)%uint64(r.cfg.Deniable) == 0) {
 		r.deniable(m, pred, choice, vtree, vpts, pv, mu, st[len(st)-1].MustDen, lay, id, traced)
 	}
 	return nil
@@ -640,9 +680,15 @@ type cnode struct {
 	rnd  kyber.XOF
 
 	panicked string
+	round    int
+	failAt   int // the transport is dead from this round on (0 = never)
 }
 
 func (c *cnode) Step(msg []byte) ([][]byte, error) {
+	c.round++
+	if c.failAt > 0 && c.round >= c.failAt {
+		return nil, errors.New("transport fault")
+	}
 	c.out <- msg
 	msgs := <-c.in
 	return msgs, nil
@@ -667,7 +713,7 @@ func (r *replayer) deniable(m *statement, pred proof.Predicate, choice map[proof
 		Ys[i] = s.Point().Mul(ys[i], B)
 	}
 	for i := 0; i < np; i++ {
-		n := &cnode{out: make(chan []byte), in: make(chan [][]byte), rnd: s.XOF([]byte(fmt.Sprintf("%s/den/%d", id, i)))}
+		n := &cnode{failAt: pv.Fault, out: make(chan []byte), in: make(chan [][]byte), rnd: s.XOF([]byte(fmt.Sprintf("%s/den/%d", id, i)))}
 		nodes[i] = n
 		vrfs := make([]proof.Verifier, np)
 		var prover proof.Prover
@@ -722,6 +768,21 @@ func (r *replayer) deniable(m *statement, pred proof.Predicate, choice map[proof
 				o := lay.offset(i) - lay.offset(nV)
 				if o+lay.size(i) > len(body) || !alter(s, false, body[o:o+lay.size(i)]) {
 					tamperFailed = true
+				}
+			}
+		case "truncIn":
+			i := mu.A - 1
+			k := inCut(lay, i, mu.B)
+			if step == 0 && i < nV {
+				out = out[:keySize+lay.offset(i)+k]
+			}
+			if step == 2 {
+				keepB := 0
+				if i >= nV {
+					keepB = lay.offset(i) - lay.offset(nV) + k
+				}
+				if keySize+keepB < len(out) {
+					out = out[:keySize+keepB]
 				}
 			}
 		case "trunc":
@@ -799,9 +860,15 @@ func (r *replayer) deniable(m *statement, pred proof.Predicate, choice map[proof
 			continue
 		}
 		r.judge("deniable", must, nodes[j].errs[0], map[string]any{"verifier": j, "participants": np})
-		if nodes[j].errs[j] != nil {
+		if pv.Fault == 0 && nodes[j].errs[j] != nil {
 			r.violate("deniable", "honest-participant-failed", "an honest participant's own prover fails", map[string]any{"participant": j, "err": nodes[j].errs[j].Error()})
 		}
+	}
+	if pv.Fault != 0 {
+		if len(nodes[0].errs) == np && nodes[0].errs[1] == nil {
+			r.violate("deniable", "accepted", "participant 0 reports participant 1's proof as accepted although the transport failed before it was completely verified", map[string]any{"fault_round": pv.Fault})
+		}
+		return
 	}
 	if len(nodes[0].errs) == np && nodes[0].errs[1] != nil {
 		r.violate("deniable", "honest-rejected", "participant 0 rejects the honest key proof of participant 1", map[string]any{"err": nodes[0].errs[1].Error()})
